@@ -940,3 +940,8 @@ mod tests {
         }
     }
 }
+
+#[cfg(kani)]
+mod verif {
+    include!(concat!(env!("PROFIRUST_VERIF_HARNESS"), "/fdl_telegram.rs"));
+}
